@@ -4,6 +4,7 @@
 mod broadcast;
 mod codec;
 mod conn;
+mod endpoint;
 mod port;
 mod robs_deque;
 mod robs_list;
@@ -125,6 +126,7 @@ fn main() {
     match comp {
         "codec" => codec::run(seed, count, &extra, &mut out),
         "port" => port::run(seed, count, &extra, &mut out),
+        "endpoint" => endpoint::run(seed, count, &extra, &mut out),
         "robs_deque" => robs_deque::run(seed, count, &extra, &mut out),
         "robs_list" => robs_list::run(seed, count, &extra, &mut out),
         "robs_vec" => robs_vec::run(seed, count, &extra, &mut out),
